@@ -1,5 +1,5 @@
 from bardolph.lib import i_lib
-from bardolph.lib.injection import bind
+from bardolph.lib.injection import bind_instance
 
 class StdOutOutput(i_lib.Output):
     def __init__(self):
@@ -17,9 +17,11 @@ class StdOutOutput(i_lib.Output):
         self._line_pending = False
 
     def flush(self):
-        if self._line_pending:
-            self.newline()
+        # Called when a script ends. As before, the end of a script does not
+        # end the line; the next script starts without owing a separator.
+        self._line_pending = False
 
 def configure():
-    bind(StdOutOutput).to(i_lib.Output)
+    # One sink for the whole process: it remembers whether a separator is owed.
+    bind_instance(StdOutOutput()).to(i_lib.Output)
 
